@@ -63,7 +63,7 @@ MODEL = {
 SIM = {"quick": [("all", 7, 60)], "thorough": [("all", 8, 1500), ("aggmap", 8, 1000), ("ifadd", 8, 1000)]}
 MODEL_INVARIANTS = ["DoneOk", "NoCrash", "StackIsPath", "DepthsInRange"]
 MODEL_INVARIANTS_REPAIRED = ["LiftXorInsert", "NoStaleBinding"]     # state invariants that only the repaired print pass has
-SAMPLE_ABOVE = 12500   # a universe with more DAGs than this is sampled (seeded) down to this many; the evidence says which
+SAMPLE_ABOVE = 8000   # a universe with more DAGs than this is sampled (seeded) down to this many; the evidence says which
 CHUNK = 1200
 EXPLICIT = ("xstream", "xagg", "xscan")      # profiles whose DAGs carry explicit ToStream / ToArray nodes
 
